@@ -273,6 +273,28 @@ pub fn reference(spec: &BlockSpec, inputs: &[InputData], script_tags: &[(usize, 
             v.extend(bits_of(x));
             exact(vec![s(v)])
         }
+        (DelayRetuneU8 { d0, early, mid }, [D::U8(x)]) => {
+            // the delay line: `early` settings before anything ran just replace the delay;
+            // a later raise inserts zeros, a later cut drops input
+            let d_eff = early.last().copied().unwrap_or(*d0) as usize;
+            let xb = bits_of(x);
+            let mut v = vec![0u64; d_eff];
+            match mid {
+                Some((at, d)) if xb.len() >= *at as usize => {
+                    let (at, d) = (*at as usize, *d as usize);
+                    v.extend(&xb[..at]);
+                    if d >= d_eff {
+                        v.extend(std::iter::repeat(0u64).take(d - d_eff));
+                        v.extend(&xb[at..]);
+                    } else {
+                        let from = (at + (d_eff - d)).min(xb.len());
+                        v.extend(&xb[from..]);
+                    }
+                }
+                _ => v.extend(xb),
+            }
+            exact(vec![s(v)])
+        }
         (DelayF32 { delay }, [D::F32(x)]) => {
             let mut v = vec![0f32.bits(); *delay as usize];
             v.extend(bits_of(x));
